@@ -22,6 +22,11 @@ pub struct NativeFn {
     /// write_memory(.., memory, P, &data) calls: index of P
     pub writes: Vec<usize>,
     pub read_slice_calls: usize,
+    /// (ptr,len) pairs by SIGNATURE: a pointer parameter immediately followed by a length parameter
+    pub sig_pairs: Vec<(usize, usize)>,
+    /// the read_memory calls read exactly the signature pairs, each once (no pointer read with another
+    /// parameter's length)
+    pub pairs_matched: bool,
     /// uses of pointer parameters outside the argument lists of the helpers
     pub stray_ptr_uses: usize,
     /// direct use of the memory object (`memory.<method>(`, `Memory::`, `get_export(`)
@@ -331,7 +336,17 @@ pub fn scan_text(src: &str, consts_src: &str) -> Scan {
         }
         let read_slice_calls = calls_of(&f.body, "read_slice").len();
         let total_ptr_uses: usize = ptr_params.iter().map(|i| word_occurrences(&f.body, &params[*i].0)).sum();
+        let sig_pairs: Vec<(usize, usize)> = ptr_params.iter().filter(|i| len_params.contains(&(**i + 1))).map(|i| (*i, *i + 1)).collect();
+        let pairs_matched = {
+            let mut a = reads.clone();
+            a.sort();
+            let mut b: Vec<(usize, usize)> = if writes.is_empty() { sig_pairs.clone() } else { Vec::new() };
+            b.sort();
+            a == b
+        };
         natives.push(NativeFn {
+            sig_pairs,
+            pairs_matched,
             name: f.name.clone(),
             cfg_test: f.attrs.contains("radix_engine_tests"),
             ptr_params,
